@@ -509,12 +509,20 @@ fn rt_max_streams_roundtrip() {
 /// C05 STREAMS_BLOCKED (both directions).
 fn rt_streams_blocked_roundtrip() {
     let dir = any_dir();
-    let f = StreamsBlockedFrame::with(dir, any_varint());
+    let v = any_varint();
+    let f = StreamsBlockedFrame::with(dir, v);
     let mut arr = [0u8; 9];
     let n = encode_exact(&f, &mut arr);
     assert!(arr[0] == if dir == Dir::Bi { 0x16 } else { 0x17 });
     let rest = skip_type(&arr[..n], f.frame_type());
-    let back = done(streams_blocked_frame_with_dir(dir)(rest));
+    let r = streams_blocked_frame_with_dir(dir)(rest);
+    if v.into_u64() > MAX_STREAMS_LIMIT {
+        // RFC 9000 §19.14: not a valid value on the wire (same rule as MAX_STREAMS)
+        assert!(r.is_err(), "STREAMS_BLOCKED above 2^60-1 is rejected");
+        core::mem::forget(r);
+        return;
+    }
+    let back = done(r);
     assert!(back == f);
     kani::cover!(dir == Dir::Uni && n == 9);
     kani::cover!(dir == Dir::Bi && n == 2);
